@@ -93,6 +93,22 @@ def ref_calibration_objective(result, project, output_quantities):
     return total
 
 
+def scale_measured_data(P, spec):
+    """The databook values of the measured quantities scaled by spec['data_scale']: data the current calibration does not fit (so the optimiser has somewhere to go)."""
+    f = spec.get("data_scale", 1.0)
+    if f == 1.0:
+        return
+    done = set()
+    for var, pop, w, metric in [tuple(m) for m in spec.get("measurables", [])]:
+        if var not in P.data.tdve:
+            continue
+        for pn, ts in P.data.tdve[var].ts.items():
+            if (var, pn) in done or (pop not in (None, "Total") and pn != pop):
+                continue
+            done.add((var, pn))
+            ts.vals = [v * f for v in ts.vals]
+
+
 def add_total_rows(at, P, spec):
     """Databook rows for the aggregate pseudo-population 'Total' (documented for calibration) for every measurable that asks for it."""
     for var, pop, w, metric in [tuple(m) for m in spec.get("measurables", [])]:
@@ -291,6 +307,8 @@ def gen_calibration(ch):
         "end_offset": [0, 0, 1, 3][ch.choose("end_offset", 4)],
         # simulation starting after the first data year: earlier data points are outside the simulated range
         "start_offset": [0, 0, 1, 2][ch.choose("start_offset", 4)],
+        # measured data the current calibration does not fit (library books are often generated from the model itself)
+        "data_scale": [1.0, 1.3, 0.7, 1.0][ch.choose("data_scale", 4)],
         "adjustables": adjustables,
         "measurables": measurables,
         "maxiters": 1 + ch.choose("maxiters", 14),
@@ -468,7 +486,10 @@ def execute(spec, fault, bump):
     if kind == "calibrate":
         import atomica as _at_
 
+        scale_measured_data(P, spec)
         add_total_rows(_at_, P, spec)
+        if fault is None and spec.get("data_scale", 1.0) != 1.0:
+            bump("probe:calibration_data_scaled")
         if fault is None and any(m[1] == "Total" for m in spec["measurables"]):
             bump("probe:calibration_against_total_row")
     if spec.get("dt"):
@@ -945,12 +966,18 @@ def execute(spec, fault, bump):
         with _unpatched_process(amodel, None):
             end = min(P.data.tvec[-1], P.settings.sim_end)
             P2 = _CORPUS[spec["project"]].project()
+            scale_measured_data(P2, spec)
             add_total_rows(at, P2, spec)
+            # the time grid of the re-evaluation is built by the same sequence of settings calls as the caller's (step,
+            # end offset, start offset) followed by the documented shortening to the last data year - with steps such as
+            # 0.3 another order of calls snaps the end year to another grid point and the two objectives are not comparable
             if spec.get("dt"):
                 P2.settings.update_time_vector(dt=spec["dt"])
-            P2.settings.update_time_vector(end=end)
+            if spec.get("end_offset"):
+                P2.settings.update_time_vector(end=P2.settings.sim_end + spec["end_offset"])
             if spec.get("start_offset"):
                 P2.settings.update_time_vector(start=P2.settings.sim_start + spec["start_offset"])
+            P2.settings.sim_end = min(P2.data.tvec[-1], P2.settings.sim_end)
             oq = []
             for var, pop, w, metric in [tuple(m) for m in spec["measurables"]]:
                 for p in [pop] if pop is not None else list(P2.data.pops.keys()):
